@@ -19,20 +19,15 @@ def C06_bootstrap_no_crosstalk : Prop :=
 
 /-- Re-entrant callbacks (`Afkak/BrokerClientR.lean`): whatever the callbacks attached to request
     Deferreds do when they fire (`close`, `disconnect`, cancel another request, make a new one), every
-    Deferred fires only after it was handed out and at most once, `ok b` only with a packet carrying
-    its id, and every Deferred unfired when a `close()` goes ahead has fired when that call is over.
-    NOT proved (the theorems of `AfkakProps/C06.lean` are about the flat model, i.e. callbacks that do
-    not re-enter); evaluated on every model trace and every implementation trace of every run. -/
+    Deferred fires only after it was handed out and at most once (and is never fired a second time),
+    `ok b` only with a packet carrying its id, and every Deferred unfired when a `close()` goes ahead
+    has fired when that call is over.  NOT proved (the theorems of `AfkakProps/C06.lean` are about the
+    flat model, i.e. callbacks that do not re-enter; `C06_reentrant_model_conservative` proves that
+    the two models coincide there); evaluated on every model trace and every implementation trace of
+    every run. -/
 def C06_reentrant : Prop :=
   ∀ (cfg : Afkak.BrokerClient.Cfg) (host port : Nat) (evs : List Afkak.BrokerClientR.EvR),
-    r06 (Afkak.BrokerClientR.traceR cfg (Afkak.BrokerClientR.StR.init host port) evs) = true
-
-/-- The re-entrant model is the flat model when no callback is registered: same observations (markers
-    dropped), same state.  NOT proved; checked by the driver on every scenario (`flat-mismatch`). -/
-def C06_flat_model_is_reentrant_model_without_hooks : Prop :=
-  ∀ (cfg : Afkak.BrokerClient.Cfg) (host port : Nat) (evs : List Afkak.BrokerClient.Ev),
-    (Afkak.BrokerClientR.traceR cfg (Afkak.BrokerClientR.StR.init host port) (evs.map .flat)).map
-        (fun t => Afkak.BrokerClientR.plain t.2)
-      = (Afkak.BrokerClient.trace cfg (Afkak.BrokerClient.St.init host port) evs).map (·.2)
+    ∃ N, ∀ fuel, N ≤ fuel →
+      r06 (Afkak.BrokerClientR.traceRWith cfg fuel (Afkak.BrokerClientR.StR.init host port) evs) = true
 
 end Afkak.Props.C06.Open
